@@ -19,10 +19,11 @@ META = {
         "seeded random YAML documents: pipelines of 1-8 elements, each independently a registered !Tag in "
         "mapping / sequence / bare form or a legacy __type__ mapping with keyword items; argument values: "
         "scalars of every YAML type (plain, quoted, ints in several bases, floats, inf, bools, null, dates), "
-        "nested lists and mappings, anchors/aliases, nested lazily and eagerly evaluated tags; tail as "
+        "nested lists and mappings, anchors/aliases, nested lazily and eagerly evaluated tags, helper objects written "
+        "as nested __type__ mappings inside __type__ elements; tail as "
         "template tag, as a tag that builds the pool while the YAML is read, or __type__; optional extra "
-        "section and logging section; a third of the documents inject a constructor failure at a random "
-        "element. Reference for the decoded arguments: yaml.safe_load of the same argument text. "
+        "section and logging section; a third of the documents inject a constructor failure (8 exception types incl. KeyError, "
+        "LookupError, AttributeError) at a random element. Reference for the decoded arguments: yaml.safe_load of the same argument text. "
         "Non-trivial = pipeline of >= 2 elements; distinct by document text."
     ),
     "assumptions": [
@@ -52,15 +53,19 @@ class Nested:
         self.tag, self.form, self.value = tag, form, value
 
 
-def gen_value(rnd, depth=0, allow_tag=True):
+def gen_value(rnd, depth=0, allow_tag=True, allow_type=False):
     k = rnd.random()
+    if allow_type and depth < 3 and k < 0.12:
+        # a helper object written as a nested legacy __type__ mapping (translated only inside __type__ elements)
+        keys = rnd.sample(KEYS, rnd.randint(0, 2))
+        return ("typed", [(key, gen_value(rnd, depth + 1, allow_tag, allow_type)) for key in keys])
     if depth >= 3 or k < 0.45:
         return ("scalar", rnd.choice(SCALARS))
     if k < 0.65:
-        return ("list", [gen_value(rnd, depth + 1, allow_tag) for _ in range(rnd.randint(0, 3))])
+        return ("list", [gen_value(rnd, depth + 1, allow_tag, allow_type) for _ in range(rnd.randint(0, 3))])
     if k < 0.85 or not allow_tag:
         keys = rnd.sample(KEYS, rnd.randint(0, 3))
-        return ("map", [(key, gen_value(rnd, depth + 1, allow_tag)) for key in keys])
+        return ("map", [(key, gen_value(rnd, depth + 1, allow_tag, allow_type)) for key in keys])
     tag = rnd.choice(["VSnapLazy", "VSnapEager"])
     form = rnd.choice(["map", "list", "bare"])
     if form == "map":
@@ -81,6 +86,11 @@ def emit(value, placeholder):
         return "[" + ", ".join(emit(v, placeholder) for v in value[1]) + "]"
     if kind == "map":
         return "{" + ", ".join("%s: %s" % (k, emit(v, placeholder)) for k, v in value[1]) + "}"
+    if kind == "typed":
+        items = ["%s: %s" % (k, emit(v, placeholder)) for k, v in value[1]]
+        if placeholder:
+            return "{__nested__: VSnapType, form: map, value: {%s}}" % ", ".join(items)
+        return "{" + ", ".join(["__type__: vplug.snap_type"] + items) + "}"
     if kind == "alias":
         return "*" + value[1]
     if kind == "anchor":
@@ -108,7 +118,7 @@ def gen_element(rnd, position, n):
     args, kwargs = [], []
     if form == "map":
         keys = rnd.sample(KEYS, rnd.randint(0 if syntax == "type" else 1, 4))
-        kwargs = [(k, gen_value(rnd, allow_tag=True)) for k in keys]
+        kwargs = [(k, gen_value(rnd, allow_tag=True, allow_type=syntax == "type")) for k in keys]
         if len(kwargs) >= 2 and rnd.random() < 0.2:  # anchor / alias within one element
             k0, v0 = kwargs[0]
             kwargs[0] = (k0, ("anchor", "anc%d" % position, v0))
@@ -142,6 +152,7 @@ def gen_case(rnd, spec):
     return {
         "elements": elements,
         "fail_at": fail_at,
+        "fail_type": rnd.choice(["Injected", "KeyError", "ValueError", "AttributeError", "LookupError", "RuntimeError", "OSError", "IndexError"]),
         "extra": rnd.choice([None, None, "{a: 1, b: [x, y]}", "[1, 2]"]),
         "logging": rnd.random() < 0.25,
         "suffix": rnd.choice([".yaml", ".yml"]),
@@ -221,7 +232,7 @@ def realise(value):
     import vplug
 
     if isinstance(value, dict) and "__nested__" in value:
-        factory = vplug.snap_lazy if value["__nested__"] == "VSnapLazy" else vplug.snap_eager
+        factory = {"VSnapLazy": vplug.snap_lazy, "VSnapEager": vplug.snap_eager, "VSnapType": vplug.snap_type}[value["__nested__"]]
         inner = realise(value["value"])
         if value["form"] == "map":
             return factory(**inner)
@@ -259,7 +270,7 @@ def execute(case, result):
     with tempfile.NamedTemporaryFile("w", suffix=case["suffix"], prefix="cobald-verif-", delete=False) as f:
         f.write(text)
         path = f.name
-    vplug.reset(fail_at=case["fail_at"])
+    vplug.reset(fail_at=case["fail_at"], fail_type=case.get("fail_type", "Injected"))
     err, config = None, None
     try:
         with load(path) as config:
@@ -274,6 +285,7 @@ def execute(case, result):
     problems = []
     if case["fail_at"] is not None:
         result.count("documents_with_failing_constructor")
+        result.count("failing_constructor_raising_%s" % case.get("fail_type", "Injected"))
         k = case["fail_at"]
         if err is None:
             problems.append("constructor %d (from the tail) failed but load() returned %r" % (k, config))
@@ -317,6 +329,8 @@ def execute(case, result):
             compare(list(obj.seen_at_call[0]), args, [], problems, "element %d args at call time (eager tag)" % i)
             compare(dict(obj.seen_at_call[1]), kwargs, [], problems, "element %d kwargs at call time (eager tag)" % i)
         result.count("elements_%s_%s" % (e["syntax"], e["form"]))
+        if "snap_type" in element_text(e):
+            result.count("elements_with_nested_type_helper")
     result.count("nested_eager_tags_checked", len(eager_seen))
     want_log = list(reversed(pipeline))
     if len(log) != n or any(a is not b for a, b in zip(log, want_log)):
@@ -374,6 +388,6 @@ def run_shard(spec):
 def finish(total, tier):
     for name in ("documents_valid", "documents_with_failing_constructor", "elements_tag_map", "elements_tag_list", "elements_tag_bare",
                  "elements_type_map", "nested_eager_tags_checked", "tails_built_while_reading", "pipelines_compared_with_rshift",
-                 "extra_sections_digested"):
+                 "extra_sections_digested", "elements_with_nested_type_helper", "failing_constructor_raising_KeyError"):
         if not total.counters.get(name) and not total.violations:
             total.inconc("monitor never observed: " + name)
